@@ -29,6 +29,9 @@ Representation choices (each validated by the correspondence run):
   (first match wins; `dict.update` = prepend); `unite_varmaps` intersects key sets as the code does;
 * a `UserRaisedError` is recorded by its message only (`active_conditions`, i.e. the *detail* text of the
   diagnostic, and the `argument=` node are not modelled).
+* an omitted parameter whose default is `...` holds `KnownValue(Ellipsis)` in the code; `Obj` has no
+  Ellipsis object, the model uses the opaque stand-in `ellipsisTy` (accepted exactly by `object`, `Any`
+  and unions containing them).
 Not modelled: type variables (`tv_map`), `reveal_type` inside evaluators, validation mode, bodies that
 mention names that are not parameters (pyanalyze reports `bad_evaluator` at the definition and the
 `or`-loop raises `TypeError` on them), TypedDict-valued `**kwargs` parameters as `is_of_type` subjects.
